@@ -982,6 +982,13 @@ def channels_in_view(repo, col, R):
     ax = red.kw.get("axis") or (red.args[1] if len(red.args) > 1 else None)
     rows = ax is None or (ax.op == "const" and ax.name in (0, "index", "rows"))
     verdict = "DISCHARGED" if (red.name in ("any", "max") and own and rows) else ("VIOLATED" if red.name in ("all", "min", "prod") or not own or not rows else "UNDECIDED")
+    if verdict == "UNDECIDED" and red.name in ("sum", "mean"):
+        # a count / fraction of the rows: `> 0`, `!= 0`, `>= 1` (sum) say "some row"
+        cmp_ = T.find(r, lambda x: x.op == "cmp" and len(x.args) == 2 and x.args[0] is red and x.args[1].op == "const")
+        if cmp_ is not None:
+            k_, o_ = cmp_.args[1].name, cmp_.name
+            some = (o_ == ">" and k_ == 0) or (o_ == "!=" and k_ == 0) or (o_ == ">=" and k_ == 1 and red.name == "sum")
+            verdict = "DISCHARGED" if some else "VIOLATED"
     col.add(R, fi, "a channel is in view iff some compartment in view carries it", verdict,
             "self.nodes[names].any(axis=0)" if verdict == "DISCHARGED" else
             f"presence is reduced with `{red.short(70)}`"
